@@ -61,12 +61,13 @@ Proof.
            (walk_ok_utf8 fold_code_point cs Hw tries p Hp) E).
 Qed.
 
-(* ... and, for a pattern without \q{...} string sets, the reported match starts and ends at character
-   boundaries (what slicing the haystack with the reported range needs) *)
+(* ... and, for a pattern without \q{...} string sets, the reported match and every reported capture start
+   and end at character boundaries (what slicing the haystack with the reported ranges needs) *)
 Theorem c06_match_on_char_boundaries_utf8 : forall unicode utf16 h cs fuel n ngroups tries p p0 e gs,
   utf8_chars (length h) h = Some cs -> simple n = true -> Utf8Valid.bnd cs p ->
   ir_search (utf8_indexer fold_code_point) unicode utf16 h fuel n ngroups tries p = Some (Some (p0, e, gs)) ->
-  Utf8Valid.bnd cs p0 /\ Utf8Valid.bnd cs e.
+  Utf8Valid.bnd cs p0 /\ Utf8Valid.bnd cs e /\
+  Forall (fun gd => (forall q, gd_start gd = Some q -> Utf8Valid.bnd cs q) /\ (forall q, gd_end gd = Some q -> Utf8Valid.bnd cs q)) gs.
 Proof.
   intros unicode utf16 h cs fuel n ngroups tries p p0 e gs Hch Hs Hp E.
   destruct (utf8_chars_ok _ _ _ Hch) as [Hw Hcat]. subst h.
